@@ -109,6 +109,16 @@ var fileSeq int
 var fileMu sync.Mutex
 
 func solveOne(o *Obligation, scratch string, timeoutS int, cross bool) {
+	if o.Kind == "effect" {
+		// decided by the frame / effect analysis; no SMT query
+		o.Solver = solverEffects
+		if o.goal == "false" {
+			o.Status = "discharged"
+		} else {
+			o.Status = "refuted"
+		}
+		return
+	}
 	fileMu.Lock()
 	fileSeq++
 	n := fileSeq
